@@ -86,6 +86,15 @@ def generate(ck) -> bool:
             text += "\n"
         if T.read_literal(SER, "_QUANT_PARAMETER_TENSOR_NAMES_FIELD") != "quant_parameter_tensor_names":
             raise T.Unsupported("_QUANT_PARAMETER_TENSOR_NAMES_FIELD changed")
+        # behavioural switches: does this tree still have the recorded defects?  (true = repaired).
+        # The model carries both behaviours (flags fixA/fixB/fixD of Model2.v), wf excludes a site only while
+        # its flag is false, and the theorems are proved for every value of the flags.
+        fl = probe_fix_flags()
+        text += "(* probed on the implementation with the witnesses of the recorded findings *)\n"
+        for k, nm in (("function-input-value-info-dropped", "FIX_fn_input_vinfo"),
+                      ("quantization-annotation-duplicated", "FIX_quant_dup"),
+                      ("ref-graph-attr-crash", "FIX_refgraph")):
+            text += f"Definition {nm} : bool := {'true' if fl[k] else 'false'}.\n"
     except (T.Unsupported, SyntaxError, OSError) as e:
         ck.gen_failed("C02Gen", e)
         return False
@@ -294,10 +303,14 @@ def t_model(m) -> str:
               for c in m.configuration)]) + ")")
 
 
+FLAGS3 = "FIX_fn_input_vinfo FIX_quant_dup FIX_refgraph"
+
 KINDS = {
     # kind: (proto class name, term printer, Coq case type, Coq roundtrip, Coq norm, Coq eqb, Coq wf)
-    "model": ("ModelProto", t_model, "ModelP", "roundtrip_model", "norm_model", "model_eqb", "wf_model"),
-    "graph": ("GraphProto", t_graph, "GraphP", "roundtrip_graph", "norm_graph", "graph_eqb_top", "(wf_graph true true [])"),
+    "model": ("ModelProto", t_model, "ModelP", f"(roundtrip_model {FLAGS3})", "norm_model", "model_eqb",
+              f"(wf_model {FLAGS3})"),
+    "graph": ("GraphProto", t_graph, "GraphP", "(roundtrip_graph FIX_quant_dup)", "norm_graph", "graph_eqb_top",
+              "(wf_graph FIX_quant_dup true true [])"),
     "tensor": ("TensorProto", t_tensor, "TensorP", "roundtrip_tensor", "norm_tensor", "tensor_eqb", "wf_tensor"),
     "vinfo": ("ValueInfoProto", t_vinfo, "VInfoP", "roundtrip_vinfo", "norm_vinfo", "vinfo_eqb", "wf_vinfo"),
 }
@@ -465,6 +478,7 @@ class Gen:
         self.r = rng
         self.n = 0
         self.refgraph_ok = True
+        self.fix = {}          # key of a recorded finding -> True when the tree is repaired
         self.hist = hist if hist is not None else {}
 
     def h(self, key):
@@ -797,7 +811,8 @@ class Gen:
             self.vinfo(g.value_info.add(), self.fresh("unref"))
             self.h("vinfo:unreferenced")
         # quantization annotations (not on values that are both input/initializer and output: known finding)
-        qn = [n for n in declared + node_outs if not (n in outs and n in declared)]
+        qn = [n for n in declared + node_outs
+              if self.fix.get("quantization-annotation-duplicated") or not (n in outs and n in declared)]
         self.r.shuffle(qn)
         for nm in qn[: self.r.choice([0, 0, 1, 2])]:
             qa = g.quantization_annotation.add()
@@ -828,7 +843,7 @@ class Gen:
         for _ in range(self.r.randrange(0, 4)):
             outs += self.node(f.node.add(), ins + outs, 0, irv, fattrs=fattrs or None, confs=confs)
         if irv >= 10:
-            for nm in outs:
+            for nm in outs + (ins if self.fix.get("function-input-value-info-dropped") else []):
                 if self.chance(0.4):
                     self.vinfo(f.value_info.add(), nm)
                     self.h("function:value_info")
@@ -864,7 +879,7 @@ class Gen:
         confs = None
         self.refgraph_ok = True
         if irv >= 11 and self.chance(0.6):
-            self.refgraph_ok = False
+            self.refgraph_ok = bool(self.fix.get("ref-graph-attr-crash"))
             confs = []
             for i in range(self.r.randrange(1, 3)):
                 c = m.configuration.add()
@@ -1142,7 +1157,24 @@ def known_witnesses() -> dict:
     t.external_data.add(key="location", value="a.bin")
     t.external_data.add(key="checksum", value="da39a3ee5e6b4b0d3255bfef95601890afd80709")
     w["external-data-checksum-dropped"] = ("tensor", t)
+    # from_proto crashes on a reference attribute of type GRAPH when the model has device configurations
+    m = onnx.ModelProto(ir_version=11)
+    m.opset_import.add(domain="", version=20)
+    m.graph.name = "g"
+    m.configuration.add(name="c0", num_devices=2)
+    f = m.functions.add(name="f", domain="d")
+    f.attribute.append("body")
+    f.output.append("y")
+    n = f.node.add(op_type="If", output=["y"])
+    n.attribute.add(name="then_branch", ref_attr_name="body", type=onnx.AttributeProto.GRAPH)
+    w["ref-graph-attr-crash"] = ("model", m)
     return w
+
+
+def probe_fix_flags() -> dict[str, bool]:
+    """True when the witness of a recorded finding round-trips on the tree under test."""
+    logging.disable(logging.WARNING)
+    return {k: not oracle_case(kind, p) for k, (kind, p) in known_witnesses().items()}
 
 
 def classify_known(diffs: list[str]) -> str | None:
@@ -1153,16 +1185,23 @@ def classify_known(diffs: list[str]) -> str | None:
         return "quantization-annotation-duplicated"
     if diffs and all("/external_data" in d for d in diffs):
         return "external-data-checksum-dropped"
+    if diffs == ["round trip raised TypeError"]:
+        return "ref-graph-attr-crash"
     return None
 
 
 def replay_known(ck) -> None:
     wit = known_witnesses()
     for k in ck._known:
-        if k.get("status") != "known":
-            continue
         kind, p = wit[k["key"]]
         diffs = oracle_case(kind, p)
+        ck.count()
+        if k.get("status") != "known":
+            # repaired ("fixed") findings are ordinary supported cases
+            if diffs:
+                ck.violation({"kind": kind, "proto_b64": proto_b64(p), "proto_text": str(p)[:3000],
+                              "differences": diffs, "coq_diagnosis": f"witness of fixed finding {k['key']} fails again"})
+            continue
         if diffs:
             ck.known_finding(k["key"], k["what"])
         else:
@@ -1254,6 +1293,7 @@ def gen_cases(ck, n_models: int) -> dict[str, list[dict]]:
     """Generated cases by message kind (supported stream + mutated stream + sub-message streams)."""
     hist = ck.coverage.setdefault("features", {})
     g = Gen(ck.rng, hist)
+    g.fix = probe_fix_flags()
     by_kind: dict[str, list[dict]] = {k: [] for k in KINDS}
     import onnx
     for i in range(n_models):
@@ -1408,6 +1448,7 @@ def run(ck) -> None:
 def search(ck) -> None:
     """Violation search: the oracle over fresh supported protos (biased to the sub-message kinds) and seeds."""
     g = Gen(ck.rng, {})
+    g.fix = probe_fix_flags()
     import onnx
     budget = 600 if not ck.thorough else 6000
     for i in range(budget):
